@@ -12,6 +12,7 @@ import (
 	"strconv"
 	"strings"
 	"sync"
+	"time"
 
 	"google.golang.org/grpc/codes"
 	"google.golang.org/grpc/status"
@@ -57,8 +58,10 @@ type tcase struct {
 	Strat   string `json:"strategy"` // unspec all most any one fast race upto other
 	Allowed int    `json:"allowed"`  // upto only
 	Behs    []beh  `json:"members"`
-	Order   []int  `json:"order"`         // completion order: a permutation of 0..n-1 (the schedule)
-	PCancel int    `json:"parent_cancel"` // -1: never; k: the caller's context is cancelled after k completions
+	Order   []int  `json:"order"`                     // completion order: a permutation of 0..n-1 (the schedule)
+	PCancel int    `json:"parent_cancel"`             // -1: never; k: the caller's context is cancelled after k completions
+	Burst   bool   `json:"burst,omitempty"`           // burst.go: every member is released at once (Order unused; PCancel 0 = the caller cancels just before)
+	PExpire bool   `json:"parent_deadline,omitempty"` // the caller's context ends by its DEADLINE at that point (Err() = context.DeadlineExceeded) instead of a cancel
 
 	// set for the gated Group-adapter cases (gadapters.go): the call is a Group RPC, which returns a reduced
 	// value instead of the result slice
@@ -67,7 +70,12 @@ type tcase struct {
 
 func (c tcase) n() int { return len(c.Behs) }
 
-func (c tcase) key() string { return c.line() }
+func (c tcase) key() string {
+	if c.PExpire {
+		return c.line() + " (deadline)"
+	}
+	return c.line()
+}
 
 // line is the driver request for this case.
 func (c tcase) line() string {
@@ -138,9 +146,9 @@ type run struct {
 	started chan struct{}
 	done    chan struct{}
 
-	mkMsg func(k int) proto.Message                                         // nil: wrapperspb strings
+	mkMsg func(k int) proto.Message                                 // nil: wrapperspb strings
 	call  func(r *run, ctx context.Context, members []group.Member) // nil: pkg/group directly
-	value string                                                     // call != nil: the reduced value returned / last sent
+	value string                                                    // call != nil: the reduced value returned / last sent
 
 	panicMsg string
 	slice    []proto.Message
@@ -365,6 +373,69 @@ func consumerMain(r *run, ctx context.Context, members []group.Member) {
 	}
 }
 
+// deadlineCtx is a caller's context that ends when the harness says its deadline has passed.  It implements
+// AfterFunc, so contexts derived from it are cancelled synchronously inside expire() (as a cancel of a standard
+// context does) rather than by a watcher goroutine some time later: the schedule stays the harness' own.
+type deadlineCtx struct {
+	context.Context
+	mu    sync.Mutex
+	done  chan struct{}
+	err   error
+	at    time.Time
+	after map[int]func()
+	next  int
+}
+
+func newDeadlineCtx() *deadlineCtx {
+	return &deadlineCtx{Context: context.Background(), done: make(chan struct{}), at: time.Now().Add(time.Hour), after: map[int]func(){}}
+}
+func (d *deadlineCtx) Deadline() (time.Time, bool) { return d.at, true }
+func (d *deadlineCtx) Done() <-chan struct{}       { return d.done }
+func (d *deadlineCtx) Err() error {
+	d.mu.Lock()
+	defer d.mu.Unlock()
+	return d.err
+}
+func (d *deadlineCtx) AfterFunc(f func()) (stop func() bool) {
+	d.mu.Lock()
+	if d.err != nil {
+		d.mu.Unlock()
+		go f()
+		return func() bool { return false }
+	}
+	id := d.next
+	d.next++
+	d.after[id] = f
+	d.mu.Unlock()
+	return func() bool {
+		d.mu.Lock()
+		defer d.mu.Unlock()
+		_, ok := d.after[id]
+		delete(d.after, id)
+		return ok
+	}
+}
+func (d *deadlineCtx) expire() {
+	d.mu.Lock()
+	if d.err != nil {
+		d.mu.Unlock()
+		return
+	}
+	d.err = context.DeadlineExceeded
+	close(d.done)
+	fs := make([]func(), 0, len(d.after))
+	for id := 0; id < d.next; id++ {
+		if f, ok := d.after[id]; ok {
+			fs = append(fs, f)
+		}
+	}
+	d.after = map[int]func(){}
+	d.mu.Unlock()
+	for _, f := range fs {
+		f()
+	}
+}
+
 // leakedBase holds goroutines leaked by earlier cases (they never go away), so that each case is
 // judged on its own goroutines only.
 var leakedBase = map[int64]struct{}{}
@@ -385,6 +456,13 @@ func runCase(c tcase) obs {
 	}
 	parent, pcancel := context.WithCancel(context.Background())
 	defer pcancel()
+	if c.PExpire {
+		// a caller whose context ends by its deadline: same Done(), but Err() is context.DeadlineExceeded and
+		// Deadline() is set - for the strategies the caller's context ending is one event, whatever its reason
+		dc := newDeadlineCtx()
+		parent, pcancel = dc, dc.expire
+		defer pcancel()
+	}
 	o := obs{Ret: -1, Slice: c.sliceAPI()}
 
 	quiet := func() ([]gor, bool) { return waitQuiet(leakedBase) }
